@@ -42,6 +42,9 @@ def case_strategy(draw: Any, runners: List[str]) -> Dict[str, Any]:
                                        exclude_categories=["Cs"]), min_size=1, max_size=3)),
         max_size=3))
     rest = ("/" + "/".join(rest_segs)) if rest_segs or draw(st.booleans()) else ""
+    if root and draw(st.integers(0, 3)) == 0:
+        # the mount prefix occurs again further down the path: only the leading one is SCRIPT_NAME
+        rest = rest + root + draw(st.sampled_from(["", "/x", root]))
     limit = draw(st.sampled_from([0, 1, 5, 16, 64, 64, 1 << 20]))
     size = draw(st.one_of(st.integers(0, 80),
                           st.sampled_from([max(0, limit - 1), limit, limit + 1])))
